@@ -191,6 +191,7 @@ TSkip == l <= Len(Rec) /\ E.ev # "Reset" /\ Adv /\ UNCHANGED <<vars, pend, dead,
 
 (* invariants evaluated on every new state of a live scenario; differences are reported, not fatal *)
 InvDiag ==
+  /\ Chk(Routing'     , <<"inv", "Routing">>)
   /\ Chk(NoLeak'      , <<"inv", "NoLeak">>)
   /\ Chk(UniqueIds'   , <<"inv", "UniqueIds">>)
   /\ Chk(WireUnique'  , <<"inv", "WireUnique">>)
